@@ -221,7 +221,7 @@ def check_symbols(case):
 
 def strat_model():
     from hypothesis import strategies as st
-    descs = spans.catalogue(5, min_len=0)
+    descs = spans.catalogue(5, min_len=0) + spans.catalogue_long()
     return st.fixed_dictionaries({
         'prog': G.programs(max_statements=3, max_leaves=4, named_periods=False, blocks=False, big_offsets=False, max_offset=2),
         'span': st.sampled_from(descs),
